@@ -206,6 +206,7 @@ def run(task: Task, seed=0, tier="quick"):
     res["functions"] = {k: list(v) for k, v in I.functions_seen.items()}
     res["files"] = dict(I.files_seen)
     res["havoc"] = sorted(set(I.havoc_log))
+    res["external_calls"] = sorted(I.external_calls)
     res["nqueries"] = I.nqueries
     res["unknown_feasibility"] = I.unknown_feasibility
     res["secs"] = round(time.time() - t0, 2)
@@ -314,7 +315,7 @@ def _run(task, I, res, seed, tier):
         return False
 
     # 1. engine sanity: the code paths cover the domain
-    if code_paths and not any(p.get("history") for p in code_paths):
+    if code_paths and not any(p.get("history") for p in code_paths) and not getattr(task, "skip_cover", False):
         solve_clause(f"{task.name}: paths cover the input domain", [],
                      z3.Or(*[z3.And(*p["pc"]) if p["pc"] else z3.BoolVal(True) for p in code_paths]), kind="cover")
     # 2. safety obligations collected from contracts along the paths, grouped by name
